@@ -975,6 +975,54 @@ func FieldReadsDebug(p *load.Program) []string {
 // must be one function of the definition, or init() names a type the package does not declare.
 func c14ObjSuffix(c *Ctx) {
 	r := c.R
+	// "the parser extracts exactly the declared names": a definition is skipped as a builtin line (int ? = Int;)
+	// only when its whole first token is one of the excluded type names - a prefix test drops integerValue#..,
+	// stringEntry#.., longPollResult#.. without an error
+	if pd := c.fn("R14.C", load.ParsePkg, "", "parseDefinition"); pd != nil {
+		n := 0
+		var bad []string
+		for _, b := range pd.Blocks {
+			ret, ok := an.AsReturn(b.Instrs[len(b.Instrs)-1])
+			if !ok || len(ret.Results) != 2 {
+				continue
+			}
+			mi, ok := an.RetVal(ret, 1).(*ssa.MakeInterface)
+			if !ok || !strings.HasSuffix(mi.X.Type().String(), "errExcluded") {
+				continue
+			}
+			n++
+			guarded := an.DominatingGuard(pd, ret, func(cd *an.Cond) int {
+				ex, ok := cd.X.(*ssa.Extract)
+				if cd.Kind != "bool" || !ok || ex.Index != 1 {
+					return -1
+				}
+				lk, ok := ex.Tuple.(*ssa.Lookup)
+				if !ok || !lk.CommaOk {
+					return -1
+				}
+				ld, ok := lk.X.(*ssa.UnOp)
+				if !ok {
+					return -1
+				}
+				if g, ok := ld.X.(*ssa.Global); !ok || (g.Name() != "excludedTypes" && g.Name() != "excludedDefinitions") {
+					return -1
+				}
+				// the key is a token the cursor read up to a delimiter (directly, or kept in def.Name meanwhile)
+				if o := an.NewTracer().OriginString(lk.Index); !strings.Contains(o, "Cursor).ReadAt#0") || strings.Contains(o, " | ") {
+					return -1
+				}
+				return cd.EdgeWhen(true).Succ
+			})
+			if !guarded {
+				bad = append(bad, "the exit at "+c.pos(ret.Pos())+" skips a line as excluded without a lookup of its whole first token (or whole name) in excludedTypes / excludedDefinitions")
+			}
+		}
+		if n == 0 {
+			r.Undecide("R14.C", "excluded-by-whole-token", c.pos(pd.Pos()), "no exit of parseDefinition returns errExcluded")
+		} else {
+			r.Check(len(bad) == 0, "R14.C", "excluded-by-whole-token", c.pos(pd.Pos()), sprintf("%d exit(s) skip a builtin line; %s", n, strings.Join(bad, "; ")))
+		}
+	}
 	// "the schema file shipped as the generator's input is accepted": schemes/api_latest.tl is a symbolic link, so
 	// the tool reads its input the way the OS resolves the path - no probe that looks at the link itself
 	{
